@@ -40,6 +40,11 @@ def scenarios(rep, tier, seed):
         if not K.materialise(scn):
             continue
         scns.append(scn)
+    # "all metrics": non-symmetric identifiers too (training evaluates d(sample, neighbour), prediction d(query, sample))
+    for i in range(200 if thorough else 40):
+        scn = K.random_scenario(rng, "unsup" if i % 2 else "knn", metric=["pearson", "neyman", "kullback_leibler", "k_divergence"][i % 4], nq=rng.randrange(4, 10), positive=True, mode="metric")
+        scn["allow_asymmetric"] = True
+        scns.append(scn)
     # KNN-supervised on pre-computed matrices with permuted index arrays (queries = rows of the matrix)
     for i in range(400 if thorough else 60):
         scn = K.knn_pre_scenario(rng, metric=rng.choice(mets), lattice=(i % 3 == 0))
